@@ -29,6 +29,7 @@ the real lines):
       turned into if / else -- when the call is the whole value of its statement.
   N8  plain aliases:  a = b  (both bound once)  ->  every use of a reads b.
   N9  f(a, *t) with t bound once to a tuple literal of stable elements -> f(a, e1, e2, ...).
+  N10 L = [] ; for T in IT: L.append(E)  ->  L = [E for T in IT]  (single-statement body, loop variables unused afterwards).
   N3  keyword arguments that name the next positional parameter of a function
       of the repository become positional  (done by Repo once all modules are
       parsed).
@@ -392,6 +393,41 @@ def propagate_aliases(fnode):
     return total
 
 
+def loops_to_comprehensions(fnode):
+    """N10:  L = [] ; for T in IT: L.append(E)   ->   L = [E for T in IT]
+    when the loop body is that one statement, L is not read in E / IT, and the loop variables are not used
+    after the loop (a comprehension does not leak them)."""
+    n = 0
+    for block in list(_blocks(fnode)):
+        i = 0
+        while i + 1 < len(block):
+            a, b = block[i], block[i + 1]
+            if isinstance(a, ast.Assign) and len(a.targets) == 1 and isinstance(a.targets[0], ast.Name) and isinstance(a.value, ast.List) and not a.value.elts \
+                    and isinstance(b, ast.For) and not b.orelse and len(b.body) == 1 and isinstance(b.body[0], ast.Expr) \
+                    and isinstance(b.body[0].value, ast.Call) and isinstance(b.body[0].value.func, ast.Attribute) and b.body[0].value.func.attr == "append" \
+                    and isinstance(b.body[0].value.func.value, ast.Name) and b.body[0].value.func.value.id == a.targets[0].id \
+                    and len(b.body[0].value.args) == 1 and not b.body[0].value.keywords:
+                L = a.targets[0].id
+                E = b.body[0].value.args[0]
+                tnames = {x.id for x in ast.walk(b.target) if isinstance(x, ast.Name)}
+                uses_L = any(isinstance(x, ast.Name) and x.id == L for x in list(ast.walk(E)) + list(ast.walk(b.iter)))
+                has_scope_or_yield = any(isinstance(x, (ast.Yield, ast.YieldFrom, ast.Await, ast.NamedExpr)) for x in list(ast.walk(E)) + list(ast.walk(b.iter)))
+                leaked = False
+                inside = {id(x) for x in ast.walk(b)}
+                for x in ast.walk(fnode):
+                    if isinstance(x, ast.Name) and x.id in tnames and id(x) not in inside:
+                        leaked = True
+                if not uses_L and not leaked and not has_scope_or_yield:
+                    comp = ast.ListComp(elt=E, generators=[ast.comprehension(target=b.target, iter=b.iter, ifs=[], is_async=0)])
+                    ast.copy_location(comp, b)
+                    a.value = comp
+                    del block[i + 1]
+                    n += 1
+                    continue
+            i += 1
+    return n
+
+
 def expand_star_tuples(fnode):
     """N9: f(a, *t) with t bound once to a tuple / list literal of stable elements -> f(a, e1, e2, ...)."""
     own, nested = _own_nodes(fnode)
@@ -449,6 +485,7 @@ def normalize_module(tree, modname=None):
     for node in ast.walk(tree):
         if isinstance(node, (ast.FunctionDef, ast.AsyncFunctionDef)):
             expand_star_tuples(node)
+            loops_to_comprehensions(node)
             for _k in range(3):
                 a_ = inline_temporaries(node)
                 b_ = propagate_aliases(node)
@@ -815,10 +852,15 @@ def inline_unknown_helpers(tree, modname):
                             if isinstance(x, ast.Call):
                                 inside = {id(y) for y in ast.walk(x)}
                                 before = [y for y in order[:k_] if id(y) not in inside]
-                                if callee_of(x, cls)[0] is not None and all(
-                                        isinstance(y, (ast.Name, ast.Constant, ast.operator, ast.unaryop, ast.cmpop, ast.expr_context, ast.Tuple, ast.List,
-                                                       ast.BinOp, ast.UnaryOp, ast.Compare, ast.BoolOp)) and not isinstance(y, (ast.Attribute, ast.Subscript))
-                                        for y in before) and not any(isinstance(y, SCOPES) for y in order[:k_]):
+                                argnames = {z.id for a_ in x.args for z in ast.walk(a_) if isinstance(z, ast.Name)}
+
+                                def harmless(y):
+                                    if isinstance(y, (ast.Name, ast.Constant, ast.operator, ast.unaryop, ast.cmpop, ast.expr_context, ast.Tuple, ast.List, ast.Dict,
+                                                      ast.BinOp, ast.UnaryOp, ast.Compare, ast.BoolOp, ast.keyword)):
+                                        return True
+                                    # a method looked up on a local object that is not handed to the helper
+                                    return isinstance(y, ast.Attribute) and isinstance(y.value, ast.Name) and y.value.id not in argnames and y.value.id in local_stores
+                                if callee_of(x, cls)[0] is not None and all(harmless(y) for y in before) and not any(isinstance(y, SCOPES) for y in order[:k_]):
                                     call = x
                                     where = "nested"
                                 break
